@@ -403,6 +403,9 @@ pub fn run(ctx: &Ctx, rep: &mut Report, replay: Option<&serde_json::Value>) {
     // Directed sweep: announced / withdrawn / snapshot sizes around the chunk limit.
     let seen: RefCell<BTreeMap<String, u64>> = RefCell::new(BTreeMap::new());
     let sweep = |rep: &mut Report, case: Case| {
+        if rep.violated() {
+            return;
+        }
         run_case(ctx, rep, "sweep", &case, |c, i| {
             let v = prop(&env, c, i);
             for cl in &i.classes {
